@@ -400,6 +400,22 @@ def check_walk(ctx, rep, rule='T-walk'):
             continue
         n += 1
         init = calls[names.index('initialize_from_context')]
+        # a contour is started only at a position that is known not to have been processed yet
+        def _is_proc(v):
+            x = strip_upd(v)
+            if x[0] in ('call', 'pcall') and x[1].endswith('::contains'):
+                return True
+            y = x
+            while y[0] in ('deref', 'refval') and len(y) > 1:
+                y = strip_upd(y[1])
+            return y[0] == 'index' or (y[0] in ('call', 'pcall') and re.search(r'Index<.*>>::index$', y[1]) is not None)
+        li0 = p.events.index(init)
+        tested = any(e['k'] == 'branch' and _is_proc(e['val']) and e['cond'] == ('eq', False) for e in p.events[:li0]) or \
+            any(e['k'] == 'branch' and strip_upd(e['val'])[0] == 'op' and strip_upd(e['val'])[1] == 'not' and _is_proc(strip_upd(e['val'])[2])
+                and e['cond'] == ('eq', True) for e in p.events[:li0])
+        rep.ob(rule, 'contour-starts-at-unprocessed-position', tested,
+               'a contour is initialised on a path that has not established that position i is unprocessed (every result event would start '
+               'a contour of its own, edges are walked more than once)', loc=b.loc(init['line']), reason='dominance')
         if len(init['args']) != 3:
             rep.ob(rule, 'contour-initialised-from-start-event', False,
                    'initialize_from_context is called with %d arguments; the walk rule models (event, &mut contours, contour_id) because the '
